@@ -4,12 +4,10 @@
     Random/Enum.v and Random/FragSem.v.
 
     With weights the model runs the memoised counter / unranker for
-    permutations with copies, whose explicit stack carries fuel; C13 relates it
-    to the reference recursion whenever it returns.  Soundness, injectivity and
-    distinctness of the keys need nothing more (no key is drawn when the model
-    returns an error value); completeness and the counts are stated for designs
-    on which the enumerator and its key list are defined ([FragSem.enumerates]),
-    which holds outright without weights ([f2_enumerates_unw]).  Proof file. *)
+    permutations with copies, whose explicit stack carries fuel; the C13 totality
+    theorems (Comb/TotalProofs.v) show that it returns, so the enumerator and
+    its key list are always defined ([f2_enumerates]) and the model returns no
+    error value at all ([f2_total]).  Proof file. *)
 From Coq Require Import ZArith List Bool Arith Lia.
 From SP Require Import Design.Flat Design.Layout Design.Sem Comb.CombModel Comb.CombSpec Random.Enum Random.Frag
   Random.FragSem Random.RunLemmas Random.FragPerm Random.Frag0Enum Random.Frag0Decode Random.Frag0Sem Random.Frag0Valid
@@ -342,6 +340,52 @@ Proof.
   exists m, lm. split; [exact HM | exact Hen].
 Qed.
 
+(** the enumerator and its key list are always defined (C13 totality of the memoised counter / unranker) *)
+Lemma f2_memos_total : exists m lm, memos_ok fb m lm /\ make_enumerator fb = ROk (f0_enum fb m lm).
+Proof.
+  destruct (f0_make_enumerator_total fb HF) as (m & lm & Hen & Hm & Hlm).
+  exists m, lm. split; [apply (memos_ok_total fb HF m lm Hm Hlm) | exact Hen].
+Qed.
+
+Theorem f2_enumerates : enumerates fb.
+Proof.
+  destruct f2_memos_total as (m & lm & HM & Hen). exists (f0_enum fb m lm), (f0_keys fb).
+  split; [exact Hen | apply (all_keys_f0 fb HF m lm HM)].
+Qed.
+
+(** the model returns no error value: enumerator, key list, the candidate of every key, the rejection test *)
+Theorem f2_total : exists en ks, make_enumerator fb = ROk en /\ all_keys fb en = ROk ks /\
+  forall k, In k ks -> exists r v, decode_with fb en k = ROk r /\ are_constraints_violated fb en r = ROk v.
+Proof.
+  destruct f2_memos_total as (m & lm & HM & Hen). exists (f0_enum fb m lm), (f0_keys fb).
+  split; [exact Hen|]. split; [apply (all_keys_f0 fb HF m lm HM)|].
+  intros k Hk. apply (f0_keys_In fb HF m lm HM) in Hk.
+  destruct (decode_f0 fb HF m lm HM k Hk) as [r [Hd Hrow]]. exists r.
+  pose proof (f2_accepts_valid fb HF m lm Hen k r Hk Hrow) as Ha. unfold accepts in Ha. rewrite Hen in Ha.
+  destruct (are_constraints_violated fb (f0_enum fb m lm) r) as [v|e] eqn:Ev.
+  - exists v. split; [exact Hd | reflexivity].
+  - exfalso.
+    (* the rejection test returns: it is computed in closed form in [f2_accepts_valid] *)
+    destruct (f0_trials fb (f0_unpack fb HF)) as [HT | [Hnr Hone]].
+    + assert (Hcells : forall g, In g (fl_act fb) -> exists row, rlookup r g = Some row /\ length row = fl_trials fb /\
+                Forall (fun cell => exists l, cell = Some l /\ l < nlevels fb g /\ ~ In (FExclude g l) (fl_constraints fb)) row).
+      { intros g Hg. pose proof (decoded_row_length fb HF Hq k g Hk Hg) as Hl.
+        pose proof (decoded_row_cells fb HF Hq k g Hk Hg) as Hc. rewrite <- Hrow in Hl, Hc.
+        unfold row_of_run in Hl, Hc. destruct (rlookup r g) as [row|]; [exists row; auto | cbn in Hl; lia]. }
+      rewrite (f2_violated fb HF m lm r Hcells) in Ev. discriminate.
+    + unfold no_rejecting_constraints in Hnr. rewrite forallb_forall in Hnr.
+      assert (H : (fix go (cs : list fconstraint) : rres bool :=
+                     match cs with
+                     | [] => ROk false
+                     | c :: t => ok <-- constraint_conforms fb r c ;;; if ok then go t else ROk true
+                     end) (fl_constraints fb) = ROk false).
+      { induction (fl_constraints fb) as [|x t IH]; [reflexivity|].
+        pose proof (Hnr x (or_introl eq_refl)) as Hx. destruct x; try discriminate; cbn [constraint_conforms rbind];
+          apply IH; intros y Hy; apply Hnr; right; exact Hy. }
+      unfold are_constraints_violated in Ev.
+      rewrite H in Ev. cbn [rbind] in Ev. cbn [en_base f0_enum eb_has_cc f0_base orb] in Ev. rewrite Hone in Ev. discriminate.
+Qed.
+
 (** without weights nothing can fail *)
 Lemma f2_enumerates_unw : f0_unw fb = true -> enumerates fb.
 Proof.
@@ -376,41 +420,41 @@ Qed.
 
 (** C05, completeness on F2 *)
 Theorem f2_accept_complete s :
-  enumerates fb -> fl_errors_fail fb = false -> valid_b S0 s = true ->
+  fl_errors_fail fb = false -> valid_b S0 s = true ->
   exists k cand, In k (keys_of fb) /\ decode_key fb k = Some cand /\ accepts fb cand = true /\
                  cand_seq fb cand = s.
 Proof.
-  intros Hex. destruct (f2_enumerates_memos Hex) as (m & lm & HM & Hen).
+  destruct f2_memos_total as (m & lm & HM & Hen).
   apply (f2m_accept_complete fb HF m lm HM Hen).
 Qed.
 
 (** C06 on F2 *)
 Theorem f2_accepted_exact :
-  enumerates fb -> fl_errors_fail fb = false ->
+  fl_errors_fail fb = false ->
   NoDup (map (cand_fseq fb) (accepted_keys fb)) /\
   (forall s, In s (map (cand_fseq fb) (accepted_keys fb)) <-> valid_b S0 s = true).
 Proof.
-  intros Hex. destruct (f2_enumerates_memos Hex) as (m & lm & HM & Hen).
+  destruct f2_memos_total as (m & lm & HM & Hen).
   apply (f2m_accepted_exact fb HF m lm HM Hen).
 Qed.
 
 Theorem f2_keys_count en :
-  make_enumerator fb = ROk en -> (exists ks, all_keys fb en = ROk ks) -> fl_errors_fail fb = false ->
+  make_enumerator fb = ROk en -> fl_errors_fail fb = false ->
   NoDup (keys_of fb) /\ Z.of_nat (length (keys_of fb)) = possible_keys fb en.
 Proof.
-  intros Hen [ks Hks] He. destruct (f2_memos en ks Hen Hks) as (m & lm & -> & HM).
-  split; [apply f2_keys_nodup | apply (f2m_keys_count fb HF m lm HM Hen He)].
+  intros Hen He. destruct f2_memos_total as (m & lm & HM & Hen'). rewrite Hen' in Hen. inversion Hen; subst en.
+  split; [apply f2_keys_nodup | apply (f2m_keys_count fb HF m lm HM Hen' He)].
 Qed.
 
 Theorem f2_count_exact en :
-  make_enumerator fb = ROk en -> (exists ks, all_keys fb en = ROk ks) ->
+  make_enumerator fb = ROk en ->
   fl_errors_fail fb = false -> rejection_free fb = true ->
   NoDup (map (cand_fseq fb) (keys_of fb)) /\
   (forall s, In s (map (cand_fseq fb) (keys_of fb)) <-> valid_b S0 s = true) /\
   Z.of_nat (length (map (cand_fseq fb) (keys_of fb))) = possible_keys fb en.
 Proof.
-  intros Hen [ks Hks] He Hrf. destruct (f2_memos en ks Hen Hks) as (m & lm & -> & HM).
-  apply (f2m_count_exact fb HF m lm HM Hen He Hrf).
+  intros Hen He Hrf. destruct f2_memos_total as (m & lm & HM & Hen'). rewrite Hen' in Hen. inversion Hen; subst en.
+  apply (f2m_count_exact fb HF m lm HM Hen' He Hrf).
 Qed.
 
 Theorem f2_rejection_free_accepts k : rejection_free fb = true -> In k (keys_of fb) -> key_accepted fb k = true.
